@@ -107,6 +107,13 @@ def slice_items(items):
     return prune(items)
 
 
+def has_inner(items):
+    for it in items:
+        if it[0] == "callInner" or (it[0] == "ite" and (has_inner(it[1]) or has_inner(it[2]))):
+            return True
+    return False
+
+
 def count_items(items):
     n = 0
     for it in items:
@@ -284,7 +291,8 @@ def generate(prop, ctx=None, write=True):
                 out.append(f"theorem {name}_noGlobal : NoGlobal {name} = {'true' if pred else 'false'} := by decide")
                 out.append("")
                 leads = [dict(kind="rng-" + k, **meta) for k, meta in sites if k in ("global", "unseeded")]
-                obligations.append(dict(name=f"{name}_noGlobal", cls=c.name, method=m, kind="rng", value=pred, leads=leads, sites=len(sites)))
+                obligations.append(dict(name=f"{name}_noGlobal", cls=c.name, method=m, kind="rng", value=pred, leads=leads, sites=len(sites),
+                                        inner=has_inner(r["methods"].get(m) or [])))
             continue
         attrs = Names()
         keys = Names()
@@ -317,12 +325,13 @@ def generate(prop, ctx=None, write=True):
                 out.append(f"-- lead: {ld['kind']} {ld.get('attr') or ld.get('path') or ''}  {ld['file']}:{ld['line']}  {ld['text'][:90]}")
             tname = f"effects_{lean_ident(c.name)}_{m}"
             out.append(f"theorem {tname} : FrameOK {sname} = {'true' if ok else 'false'} := by decide")
-            obligations.append(dict(name=tname, cls=c.name, method=m, kind="frame", value=ok, leads=_dedupe(leads), size=count_items(sl), full_size=count_items(items)))
+            obligations.append(dict(name=tname, cls=c.name, method=m, kind="frame", value=ok, leads=_dedupe(leads), size=count_items(sl), full_size=count_items(items),
+                                    inner=has_inner(items)))
             if prop == "C13" and m == "fit":
                 hok, _, hleads = abscheck.history_free(r["params"], sl)
                 hname = f"fit_{lean_ident(c.name)}_historyFree"
                 for ld in hleads[:6]:
-                    out.append(f"-- lead: read-before-write {ld['attr']}  {ld['file']}:{ld['line']}  {ld['text'][:90]}")
+                    out.append(f"-- lead: {ld['kind']} {ld['attr']}  {ld['file']}:{ld['line']}  {ld['text'][:90]}")
                 out.append(f"theorem {hname} : HistoryFree {sname} = {'true' if hok else 'false'} := by decide")
                 obligations.append(dict(name=hname, cls=c.name, method=m, kind="history", value=hok, leads=_dedupe(hleads)))
             out.append("")
